@@ -1,5 +1,8 @@
 """C05 - session events."""
 FUNCTIONS = ['socket.Socket.check_ping_timeout', 'socket.Socket.send', 'socket.Socket.close',
              'socket.Socket.schedule_ping', 'socket.Socket._send_ping',
-             'server.Server._trigger_event']
+             'server.Server._trigger_event', 'async_server.AsyncServer._trigger_event',
+             'async_socket.AsyncSocket.check_ping_timeout', 'async_socket.AsyncSocket.send',
+             'async_socket.AsyncSocket.close', 'async_socket.AsyncSocket.schedule_ping',
+             'async_socket.AsyncSocket._send_ping']
 CLAIMED = False
